@@ -14,6 +14,7 @@ import Driver.Ops.RefRead
 import Driver.Ops.Rle
 import Driver.Ops.Schema
 import Driver.Ops.Simd
+import Driver.Ops.Sink
 import Driver.Ops.Snappy
 import Driver.Ops.Stats
 import Driver.Ops.Thrift
@@ -40,6 +41,7 @@ def handlers : List (Line → Option Verdict) :=
     Driver.Ops.Rle.handle,
     Driver.Ops.Schema.handle,
     Driver.Ops.Simd.handle,
+    Driver.Ops.Sink.handle,
     Driver.Ops.Snappy.handle,
     Driver.Ops.Stats.handle,
     Driver.Ops.Thrift.handle ]
